@@ -20,11 +20,20 @@ META = dict(
     technique="Coq theorems (induction over event scripts of a store-of-States + three-generator-tape model: logging observers "
               "are transparent for every schedule, a seeded run does not depend on earlier generator positions, the algorithm "
               "writes into a deep copy of the settings) + trace correspondence of recorded State/RNG operations of real fits, "
-              "decided inside Coq with the model's own `read_only` predicate + metamorphic bit-identity on the implementation",
+              "decided inside Coq with the model's own `read_only` predicate + metamorphic bit-identity on the implementation; "
+              "source-level tie of the fit's control flow: a fail-closed python-ast translator regenerates a structured program over named "
+              "events (coq/gen/GenC11.v) from BaseAlgorithm.run / TensorMcmcSaemAlgorithm._run, _iteration, _maximization_step / "
+              "_update_temperature / FitOutputManager.iteration; Coq proves that this program denotes exactly the hand-written script "
+              "fit_run for every n_iter, variable order, flag and periodicity, and each recorded fit is checked inside Coq to be an "
+              "execution of it",
     level_text="partial: the kernel of the property is proved for every observer schedule / iteration script / seed on the model, "
                "with the behaviour of one State object as an explicit interface; that interface is PROVED for the State model of C01 on "
                "every well-formed graph and the theorem is re-stated over State objects reachable from init_store with the hypothesis "
-               "gone (C11_logging_transparent_state, C11_fit_is_state_history; coq/theories/Compose, docs/Compose-api.md). Most of the assurance that the CODE has this shape comes from the per-run checks: recorded traces of real "
+               "gone (C11_logging_transparent_state, C11_fit_is_state_history; coq/theories/Compose, docs/Compose-api.md). That a fit HAS the shape of "
+               "the model's script (seeds first; per iteration the algorithm's events, then observer calls only under `output_manager is not None` "
+               "and their periodicity tests; no algorithm event or test depending on the logging configuration) is no longer only sampled: it is "
+               "proved of the program regenerated from today's source (C11_src_*), for every configuration. What the named events DO (samplers, "
+               "model methods, the output manager's print/save/plot methods being read-only) is still tied by recorded traces: most of the assurance that the CODE has this shape comes from the per-run checks: recorded traces of real "
                "fits with logging = the trace without logging + read-only operations + zero generator consumption (checked in Coq and "
                "on generator-state digests), and bit-identical parameters / individual parameters / simulated data across repetition, "
                "prior random-number consumption, prior fits and the logging grid. 'Never aborts' is a runtime check only (finding F4).",
@@ -43,6 +52,7 @@ OBLIGATIONS = [
     # source-level tie (Api/RunProg*.v): the program regenerated from the source (coq/gen/GenC11.v) denotes fit_run
     "C11_src_program_is_fit_run", "C11_src_program_without_logging", "C11_src_logging_transparent",
     "C11_src_observers_guarded", "C11_src_observers_erased", "C11_src_observer_frame", "C11_src_example",
+    "C11_src_logging_transparent_state",
 ]
 
 
@@ -943,7 +953,13 @@ def build_tie(run: Run):
         run.broken("build:ApiTie", out[-1500:])
     ok2, out = make(["theories/Api/RunProgTie.vo"], jobs=8)
     if not ok2:
-        run.broken("build:RunProgTie", out[-1500:])
+        import re
+        m = re.search(r'File "([^"]+)", line (\d+)[^\n]*\n(?:.*\n){0,8}', out)
+        run.broken("build:RunProgTie",
+                   "Api/RunProgTie.v does not build.  Its first lemmas (`gen_well_shaped`, `gen_guards_ok`) are decided by vm_compute on "
+                   "coq/gen/GenC11.v, the control flow regenerated from the source: a failure there means the fit no longer has the shape of "
+                   "`fit_run` (an algorithm event or a test of the logging configuration where only the other side may stand, an observer call "
+                   "outside `if self.output_manager is not None` or outside its periodicity test).\n" + (m.group(0) if m else out[-1500:]))
     return ok2
 
 
@@ -961,13 +977,18 @@ def main(run: Run):
     thorough = run.tier == "thorough"
     os.makedirs(SCRATCH, exist_ok=True)
     run.rule = ("(a) real fits recorded with and without logging, compared inside Coq with the model's read_only predicate; non-trivial = "
-                "the logged run performs at least one observer operation. (b,c) seeded public calls (mcmc_saem fit; scipy_minimize, "
+                "the logged run performs at least one observer operation; the same recordings (+ one without OutputsSettings, one with the "
+                "progress bar on and sorted sampling order) carry markers around the calls that are the named events of the program "
+                "regenerated from the source, and Coq checks that the marker sequence is the unfolding of that program in the configuration "
+                "read from the algorithm object (non-trivial = more than 10 named events). (b,c) seeded public calls (mcmc_saem fit; scipy_minimize, "
                 "mean_posterior, mode_posterior, simulate on a saved model) repeated / after generator consumption / after another fit / "
                 "over the grid print,save,plot,plot_patient in {None,1,3,n_iter} x path in {None,tmp} (quick: directed core + seeded sample; "
                 "thorough: full grid for logistic, 40 sampled combinations for the other kinds); non-trivial = the configuration was accepted "
                 "at construction. Compared bit-for-bit (sha1 of tensors / dataframes, final digests of the three generator states).")
-    run.explanation = ("Unbounded statements are proved on the event-script model; the per-run checks establish that real runs have the "
-                       "shape the model assumes (logging = read-only observer scripts without generator calls; three seeds first) and "
+    run.explanation = ("Unbounded statements are proved on the event-script model; that a fit's control flow IS that script is proved of the "
+                       "structured program regenerated from the source on every run (translator fail-closed; a change of shape breaks "
+                       "`gen_well_shaped` / `gen_guards_ok`); the per-run checks establish that real runs execute that program and that the "
+                       "named events have the nature the model assumes (logging = read-only observer scripts without generator calls) and "
                        "search the implementation for a seed / history / logging combination that changes a result or aborts.")
     run.assumptions += [
         "behaviour of one State object = the ten facts of `state_interface` (to be discharged by C01; proved for the memo table of ApiInst.v)",
@@ -975,7 +996,8 @@ def main(run: Run):
         "python random, numpy global RandomState and torch default generator are the only entropy sources (digest-checked around observers)",
     ]
     run.trusted += ["harness/recorder.py (wrappers around State methods and RNG entry points, generator-state digests)",
-                    "Coq evaluation (vm_compute) of Api/ApiTie.v checkers on encoded traces"]
+                    "Coq evaluation (vm_compute) of Api/ApiTie.v checkers on encoded traces",
+                    "span markers of harness/props/c11.py (instance-level wrappers naming the calls that are the events of Api/RunProg.v)"]
     try:
         trace_correspondence(run, thorough)
         settings_copy(run)
